@@ -68,4 +68,84 @@ theorem transitionAfter_frees_slot (s : Streams) (k : Nat) (b : Bool) (hA : Keys
     exact hcounts
   · exact hcounts
 
+-- ===================================================================== C19: what `transition_after` keeps
+
+theorem decNumStreams_get?_any (t : Streams) (k j : Nat) (x : Stream) (hx : t.store.get? j = some x) :
+    ∃ x', (t.decNumStreams k).store.get? j = some x' ∧ x'.refCount = x.refCount ∧ x'.id = x.id := by
+  by_cases hj : j = k
+  · subst hj
+    exact ⟨_, decNumStreams_get?_self t j x hx, rfl, rfl⟩
+  · refine ⟨x, ?_, rfl, rfl⟩
+    -- another key: untouched
+    unfold Streams.decNumStreams
+    dsimp only
+    have hm : ∀ (u : Streams), u.store.get? j = some x →
+        (u.modStream k fun st => { st with isCounted := false }).store.get? j = some x := by
+      intro u hu
+      unfold Streams.modStream
+      split
+      · next y hy =>
+        rw [setStream_get?, hu]
+        have : (x.key == ({ y with isCounted := false } : Stream).key) = false := by
+          show (x.key == y.key) = false
+          rw [get?_key hu, get?_key hy]; simpa using hj
+        simp only [Option.map_some, this, Bool.false_eq_true, if_false]
+      · rw [panic_store]; exact hu
+    repeat' split
+    all_goals
+      apply hm
+      simp only [Streams.modCounts, panic_store, hx]
+
+/-- **an entry that a handle still refers to (`ref_count > 0`), or any entry other than the one
+    `transition_after` was called for, stays in the slab with its stream id and `ref_count`** -/
+theorem transitionAfter_keeps (s : Streams) (k j : Nat) (b : Bool) (x : Stream) (hx : s.store.get? j = some x)
+    (hkeep : j ≠ k ∨ x.refCount ≠ 0) :
+    ∃ x', (s.transitionAfter k b).store.get? j = some x' ∧ x'.refCount = x.refCount ∧ x'.id = x.id := by
+  rw [transitionAfter_split]
+  generalize hs1 : (if (b && !(s.stream k).isPendingResetExpiration) = true then
+      s.modCountsA "self.num_local_reset_streams > 0" Counts.decNumResetStreams else s) = s1
+  have hx1 : s1.store.get? j = some x := by
+    rw [← hs1]; split
+    · rw [(modCountsA_decReset_facts s).1]; exact hx
+    · exact hx
+  clear hs1 hx
+  unfold Streams.transitionAfter
+  simp only [Bool.false_and, Bool.false_eq_true, if_false]
+  generalize hs2 : (if (s1.stream k).isClosed = true then _ else s1) = s2
+  have hx2 : ∃ x2, s2.store.get? j = some x2 ∧ x2.refCount = x.refCount ∧ x2.id = x.id := by
+    rw [← hs2]
+    split
+    · generalize hs3 : (if (!(s1.stream k).isPendingResetExpiration) = true then
+          ({ s1 with store := s1.store.unlink (s1.stream k).id } : Streams) else s1) = s3
+      have hx3 : s3.store.get? j = some x := by rw [← hs3]; split <;> exact hx1
+      split
+      · exact decNumStreams_get?_any s3 k j x hx3
+      · exact ⟨x, hx3, rfl, rfl⟩
+    · exact ⟨x, hx1, rfl, rfl⟩
+  clear hs2
+  obtain ⟨x2, hx2, hr2, hi2⟩ := hx2
+  split
+  · next hrel =>
+    -- released: then `j ≠ k`, because a released entry has `ref_count = 0`
+    have hjk : j ≠ k := by
+      rcases hkeep with h | h
+      · exact h
+      · intro he
+        subst he
+        rw [stream_of_get? hx2] at hrel
+        unfold Stream.isReleased at hrel
+        simp only [Bool.and_eq_true, beq_iff_eq] at hrel
+        rw [hr2] at hrel
+        exact h hrel.1.1.1.1.1.1.2
+    generalize hs4 : (if (s2.stream k).isCounted = true then s2.decNumStreams k else s2) = s4
+    have hx4 : ∃ x4, s4.store.get? j = some x4 ∧ x4.refCount = x2.refCount ∧ x4.id = x2.id := by
+      rw [← hs4]; split
+      · exact decNumStreams_get?_any s2 k j x2 hx2
+      · exact ⟨x2, hx2, rfl, rfl⟩
+    obtain ⟨x4, hx4, hr4, hi4⟩ := hx4
+    refine ⟨x4, ?_, hr4.trans hr2, hi4.trans hi2⟩
+    show (Store.remove _ k).get? j = some x4
+    rw [remove_get?_ne _ _ _ hjk]; exact hx4
+  · exact ⟨x2, hx2, hr2, hi2⟩
+
 end H2V.Lemmas.ConnCountsP
